@@ -8,7 +8,7 @@ use serde_json::{json, Value};
 use vmodel::evidence::Acc;
 use vmodel::gen::{root_class, rooted_tys, val_strategy, ValCfg};
 use vmodel::refcodec::{ref_decode, ref_encode, ref_encode_forms, ScriptForms};
-use vmodel::{canon, derive_seed, hash_json, hex, Ty, Val};
+use vmodel::{canon, derive_seed, hash_json, hex, with_transient_defaults, Ty, Val};
 
 #[derive(Debug, Clone, Serialize, Deserialize)]
 pub struct TV {
@@ -115,16 +115,18 @@ pub fn check_c04(c: &TV, acc: &mut Acc, record: bool) -> Verdict {
     if bytes != reference {
         return Verdict::Fail(format!("bytes differ from the format: value {} of {}: got {} expected {}", c.val.brief(), c.ty.render(), hex(&bytes), hex(&reference)));
     }
+    // transient fields of derived declarations come back as their declared defaults
+    let want = with_transient_defaults(&c.ty, &c.val);
     match ref_decode(&c.ty, &alt) {
-        Ok((v, used)) if used == alt.len() && canon(&c.ty, &v) == canon(&c.ty, &c.val) => {}
+        Ok((v, used)) if used == alt.len() && canon(&c.ty, &v) == canon(&c.ty, &want) => {}
         other => return Verdict::Fail(format!("HARNESS: reference decoder does not invert the reference encoder: {other:?}")),
     }
     match vcat::decode(&c.ty, &alt) {
         Ok(v2) => {
-            if canon(&c.ty, &v2) == canon(&c.ty, &c.val) {
+            if canon(&c.ty, &v2) == canon(&c.ty, &want) {
                 Verdict::Pass
             } else {
-                Verdict::Fail(format!("well-formed encoding {} of {} decoded to {} instead of {}", hex(&alt), c.ty.render(), v2.brief(), c.val.brief()))
+                Verdict::Fail(format!("well-formed encoding {} of {} decoded to {} instead of {}", hex(&alt), c.ty.render(), v2.brief(), want.brief()))
             }
         }
         Err(e) => Verdict::Fail(format!("well-formed encoding {} of {} was rejected: {e:?}", hex(&alt), c.ty.render())),
@@ -136,7 +138,12 @@ pub fn run_c04(cx: &Cx) -> PropResult {
     let per_shard = cx.n(2_500, 120_000);
     let acc = parallel(cx, &|shard, acc| {
         let strat = tv_strategy(depth, ValCfg::default());
-        drive(crate::run::tag_seed(derive_seed(cx.seed, cx.prop, shard as u64, 0), 0), &strat, per_shard, acc, &|c: &TV| to_json(c), &mut |c, a, r| check_c04(c, a, r));
+        if drive(crate::run::tag_seed(derive_seed(cx.seed, cx.prop, shard as u64, 0), 0), &strat, per_shard, acc, &|c: &TV| to_json(c), &mut |c, a, r| check_c04(c, a, r)) {
+            return;
+        }
+        // derived declarations (records with evolution headers and chunks, enums), at the root and under containers
+        let strat = tv_strategy_ext(2, ValCfg { max_len: 5, long: false, ..ValCfg::default() }, true);
+        drive(crate::run::tag_seed(derive_seed(cx.seed, cx.prop, shard as u64, 1), 1), &strat, per_shard / 2, acc, &|c: &TV| to_json(c), &mut |c, a, r| check_c04(c, a, r));
     });
     let mut r = PropResult::new(
         acc,
@@ -156,7 +163,8 @@ pub fn replay_c04(case: &Value) -> Verdict {
 pub fn ty_strategy_ext(depth: u32, with_dedup: bool) -> BoxedStrategy<Ty> {
     use std::sync::Arc;
     let roots: Vec<BoxedStrategy<Ty>> = rooted_tys(depth).into_iter().map(|(_, s)| s).collect();
-    let adt = vmodel::declgen::adt_ty_strategy(with_dedup);
+    let compiled: Vec<Ty> = crate::props::derived::batch().all().into_iter().map(Ty::Adt).collect();
+    let adt = prop_oneof![3 => vmodel::declgen::adt_ty_strategy(with_dedup), 1 => proptest::sample::select(compiled)].boxed();
     prop_oneof![
         6 => Union::new(roots),
         4 => adt.clone(),
